@@ -268,6 +268,8 @@ def randomRangeNonUniform (bitsFn : BitsFn) (comb : Int → Int → Int → Int 
 structure Libm where
   log : FVal → FVal
   pow : FVal → FVal → FVal
+  sqrt : FVal → FVal
+  exp : FVal → FVal
 
 /-- The facts about the C library that the theorems ASSUME (they are not verified; a libm with a
 monotone, sign-correct `log` and `pow` that is exact at `log(1)` satisfies them):
@@ -304,8 +306,8 @@ def gammaLoop (bitsFn : BitsFn) : Nat → FVal → Rng → Except UB (FVal × Rn
     let (r, g') ← random bitsFn g
     gammaLoop bitsFn ia (FVal.mul x (oneMinus r)) g'
 
-/-- `Gamma(ia)` for `ia < 6` (direct method). For `ia ≥ 6` (rejection method) the model has no
-definition: `none`. -/
+/-- `Gamma(ia)` for `ia < 6` (direct method); `none` for `ia ≥ 6`: the rejection method is
+modelled in `Model/RandGamma.lean` (`gammaBig`, and `gamma` for the whole function). -/
 def gammaSmall (bitsFn : BitsFn) (L : Libm) (ia : Nat) (g : Rng) : Option (Except UB (FVal × Rng)) :=
   if ia < 6 then
     some (do
